@@ -764,6 +764,127 @@ def gated_type_sessions(ctx, Session, hostkey, stats):
             run_session(ctx, Session, hostkey, steps, stats, True, None)
 
 
+def forged_proofs(key, alg, blob, other, rng):
+    """(name, signature blob) pairs that are NOT valid proofs for `blob` under `key`, built per key class around the
+    values its verify code treats specially."""
+    import paramiko
+    from paramiko.message import Message
+
+    def mp(*ints, tail=b""):
+        m = Message()
+        for i in ints:
+            m.add_mpint(i)
+        return m.asbytes() + tail
+
+    good = Message(key.sign_ssh_data(blob, alg).asbytes())
+    good.get_binary()
+    raw = good.get_binary()
+    out = [("empty-blob", b""), ("from-another-key", None), ("one-bit-flipped", raw[:-1] + bytes([raw[-1] ^ 1])),
+           ("first-bit-flipped", bytes([raw[0] ^ 0x40]) + raw[1:])]
+    if isinstance(key, paramiko.ECDSAKey):
+        inner = Message(raw)
+        r, s_int = inner.get_mpint(), inner.get_mpint()
+        n = {256: 0xFFFFFFFF00000000FFFFFFFFFFFFFFFFBCE6FAADA7179E84F3B9CAC2FC632551}.get(key.get_bits(), 1 << key.get_bits())
+        out += [("negative-r", mp(-r, s_int)), ("negative-s", mp(r, -s_int)), ("both-negative", mp(-1, -1)),
+                ("r=-1", mp(-1, s_int)), ("zero-r", mp(0, s_int)), ("zero-s", mp(r, 0)), ("zero-zero", mp(0, 0)),
+                ("oversize-r", mp(r + n, s_int)), ("huge-r", mp(1 << 600, s_int)), ("huge-s", mp(r, 1 << 600)),
+                ("trailing-bytes", mp(r, s_int, tail=b"\x00")), ("trailing-mpint", mp(r, s_int, 1)),
+                ("only-r", mp(r)), ("swapped-r-s", mp(s_int, r)), ("r-plus-one", mp(r + 1, s_int))]
+    elif isinstance(key, paramiko.Ed25519Key):
+        out += [("length-63", raw[:63]), ("length-65", raw + b"\x00"), ("length-0-string", b""), ("all-zero-64", b"\x00" * 64),
+                ("all-ff-64", b"\xff" * 64), ("random-64", bytes(rng.randrange(256) for _ in range(64))),
+                ("halves-swapped", raw[32:] + raw[:32]), ("length-32", raw[:32]), ("length-128", raw + raw)]
+    else:
+        k = len(raw)
+        nmod = key.public_numbers.n
+        out += [("zero", b"\x00" * k), ("one", (1).to_bytes(k, "big")), ("n-minus-1", (nmod - 1).to_bytes(k, "big")),
+                ("n", nmod.to_bytes(k, "big")), ("length-minus-1", raw[1:]), ("length-plus-1", b"\x00" + raw),
+                ("length-plus-1-tail", raw + b"\x00"), ("all-ff", b"\xff" * k), ("truncated-half", raw[:k // 2])]
+    res = []
+    for name, rawsig in out:
+        if name == "from-another-key":
+            if other is None:
+                continue
+            m = Message(other.sign_ssh_data(blob, alg).asbytes())
+            m.get_binary()
+            rawsig = m.get_binary()
+        res.append((name, s_(alg.encode()) + s_(rawsig)))
+    res.append(("no-inner-string", s_(alg.encode())))
+    res.append(("empty-signature", b""))
+    return res
+
+
+def forged_proof_loopback(ctx):
+    """C14 end to end: real server Transport, real key classes (RSA x3 algorithms, ECDSA 256/384/521, Ed25519), an
+    application that accepts the key (fully or partially): the genuine signature is the only proof that may be
+    acknowledged; every forged blob must end in USERAUTH_FAILURE with partial_success false (or end the connection)
+    and never in SUCCESS / partial_success true."""
+    import paramiko
+    Session = make_classes()
+    tests = os.path.join(ctx.repo, "tests")
+    hostkey = paramiko.RSAKey.from_private_key_file(os.path.join(tests, "_support", "rsa.key"))
+    specs = [("_support/rsa.key", paramiko.RSAKey, ["rsa-sha2-512", "rsa-sha2-256", "ssh-rsa"]),
+             ("_support/ecdsa-256.key", paramiko.ECDSAKey, ["ecdsa-sha2-nistp256"]),
+             ("test_ecdsa_384.key", paramiko.ECDSAKey, ["ecdsa-sha2-nistp384"]),
+             ("test_ecdsa_521.key", paramiko.ECDSAKey, ["ecdsa-sha2-nistp521"]),
+             ("_support/ed25519.key", paramiko.Ed25519Key, ["ssh-ed25519"])]
+    others = {paramiko.RSAKey: paramiko.RSAKey.generate(2048), paramiko.ECDSAKey: None, paramiko.Ed25519Key: None}
+    holder = {}
+    n, died = 0, {}
+    user, service = b"alice", b"ssh-connection"
+    with c14.gss_patch(holder):
+        for fn, cls, algs in specs:
+            path = os.path.join(tests, fn)
+            if not os.path.exists(path):
+                continue
+            key = cls.from_private_key_file(path)
+            other = others[cls]
+            if cls is paramiko.ECDSAKey:
+                other = paramiko.ECDSAKey.generate(bits=key.get_bits())
+            for alg in algs:
+                # blob depends on the session id: forge per session
+                names = None
+                idx = 0
+                while names is None or idx < len(names):
+                    sess = Session(hostkey)
+                    holder["world"] = sess
+                    try:
+                        blob = c14.my_blob(sess.ts.session_id, user, service, alg.encode(), key.asbytes())
+                        forged = [("genuine", key.sign_ssh_data(blob, alg).asbytes())] + forged_proofs(key, alg, blob, other, ctx.rng)
+                        names = [f[0] for f in forged]
+                        name, sig = forged[idx]
+                        res = 1 if (idx % 3 == 2 and name != "genuine") else 0
+                        env = {"res": res, "gss": False, "mechok": True, "tok": 1, "micok": True, "kexctx": False,
+                               "banner": False}
+                        payload = s_(user) + s_(service) + s_(b"publickey") + b"\x01" + s_(alg.encode()) \
+                            + s_(key.asbytes()) + s_(sig)
+                        sess.send(50, payload, env, True)
+                        sent = [m for m in sess.ts.packetizer.v_sent if m[:1] not in (b"\x07", b"\x14")]
+                        told = ("success" if b"\x34" in sent or sess.authed() else
+                                "partial" if any(m[:1] == b"\x33" and m[-1:] == b"\x01" for m in sent) else
+                                "failure" if any(m[:1] == b"\x33" for m in sent) else
+                                "connection-ended" if not sess.alive() else "nothing")
+                        n += 1
+                        ctx.count(("forged-proof", alg, name, res), kind="forged-proof:" + cls.__name__)
+                        want = ("success",) if name == "genuine" else ("failure", "connection-ended")
+                        if told == "connection-ended":
+                            died.setdefault(alg, []).append(name)
+                        if told not in want:
+                            ctx.fail(("bad-signature-accepted:" if told == "success" else
+                                      "partial-success-without-proof:" if told == "partial" else
+                                      "valid-signature-rejected:" if name == "genuine" else "publickey-answer-wrong:")
+                                     + cls.__name__ + ":" + name,
+                                     "real server transport, %s key, algorithm %s, application answers %s, signature blob "
+                                     "[%s]: the client is told %r" % (cls.__name__, alg, RES[res], name, told),
+                                     case={"sid": sess.ts.session_id, "steps": [{"ptype": 50, "payload": payload, "env": env}],
+                                           "real_key": fn, "algorithm": alg, "forgery": name},
+                                     expected=" / ".join(want), observed=[m.hex() for m in sent])
+                    finally:
+                        sess.close()
+                    idx += 1
+    return "%d proofs; ended the connection instead of answering: %s" % (n, died or "none")
+
+
 def inkex_sessions(ctx, Session, hostkey, stats):
     """Deterministic: every connection-layer type right after the server started a key exchange, before any
     authentication and after a failed / partial one."""
